@@ -42,7 +42,7 @@ type c07Case struct {
 
 func c07Gen(t *rapid.T, r *h.Rec) c07Case {
 	av, onEx, onCl := avoidOpts(r)
-	c := c07Case{Cross: rapid.IntRange(0, 39).Draw(t, "cross") == 0, Reload: rapid.IntRange(0, 29).Draw(t, "reload") == 0}
+	c := c07Case{Cross: rapid.IntRange(0, 79).Draw(t, "cross") == 0, Reload: rapid.IntRange(0, 29).Draw(t, "reload") == 0}
 	switch rapid.IntRange(0, 5).Draw(t, "profile") {
 	case 0, 1:
 		c.Profile = "sql"
@@ -329,8 +329,24 @@ func c07CrossProcess(c c07Case, r *h.Rec) error {
 	binDir := filepath.Join(dir, "bin")
 	os.MkdirAll(binDir, 0o755)
 	os.Symlink(goBin, filepath.Join(binDir, "go"))
+	// a second source of the same configuration: the sibling file of the analysed package (its declarations are
+	// then analysed on their own as well, and the Dart generator merges both analyses)
+	second := ""
+	if files := c.Spec.Root().Files; len(files) > 1 {
+		second = filepath.Join(filepath.Dir(file), files[1].Name)
+		for _, d := range files[1].Decls {
+			if d.Kind == synth.KGeneric {
+				second = "" // an uninstantiated generic declaration is refused when it is a source itself
+			}
+		}
+	}
+	runs := 3
+	if second != "" {
+		runs = 4
+		r.Class("cross_process:two_sources")
+	}
 	var first map[string]string
-	for run := 0; run < 3; run++ {
+	for run := 0; run < runs; run++ {
 		outDir := filepath.Join(dir, fmt.Sprintf("out%d", run))
 		os.MkdirAll(filepath.Join(outDir, "dart"), 0o755)
 		actions := []map[string]string{
@@ -344,6 +360,12 @@ func c07CrossProcess(c c07Case, r *h.Rec) error {
 			actions = append(actions, map[string]string{"Mode": "go/sqlcrud", "Output": filepath.Join(outDir, "crud.go.txt")})
 		}
 		conf := map[string]any{"_dart": []map[string]string{{"Mode": "dart", "Output": filepath.Join(outDir, "dart")}}, file: actions}
+		if second != "" {
+			conf[second] = []map[string]string{
+				{"Mode": "typescript/types", "Output": filepath.Join(outDir, "types_other.ts")},
+				{"Mode": "dart", "Output": "unused"},
+			}
+		}
 		cb, _ := json.Marshal(conf)
 		confPath := filepath.Join(outDir, "conf.json")
 		os.WriteFile(confPath, cb, 0o644)
@@ -417,7 +439,7 @@ func c07Routes(c c07Case, r *h.Rec, R int) error {
 func TestC07(t *testing.T) {
 	h.Main(t, h.Prop[c07Case]{
 		ID: "C07", ConfirmTries: 12,
-		Rule: "rapid programs of the types profile (>= 1 union, several imported user packages, generics, aliases), the sql profile (with directives) and the routes profile; each is analysed and generated 8 times in one process (half on a shared load, half on fresh loads which alternate between the two orders in which files can enter the FileSet) for gounions, randdata, sqlcrud (sets on/off), sql, typescript types, dart (all files) or the Axios client, comparing every output text and the set of output files; 1 program in 40 is also run three times through the real CLI (go build of cmd, -config mode with a _dart entry, PATH holding only `go`) as separate processes, comparing every written file; 1 program in 30 is also loaded 4 times with the real analysis.LoadSource, whose parser works concurrently, comparing all outputs; " +
+		Rule: "rapid programs of the types profile (>= 1 union, several imported user packages, generics, aliases), the sql profile (with directives) and the routes profile; each is analysed and generated 8 times in one process (half on a shared load, half on fresh loads which alternate between the two orders in which files can enter the FileSet) for gounions, randdata, sqlcrud (sets on/off), sql, typescript types, dart (all files) or the Axios client, comparing every output text and the set of output files; about 1 program in 20 (rapid favours small draws) is also run three times through the real CLI (go build of cmd, -config mode with a _dart entry and, when the package has a sibling file, that file as a second source: four runs then; PATH holding only `go`) as separate processes, comparing every written file; 1 program in 30 is also loaded 4 times with the real analysis.LoadSource, whose parser works concurrently, comparing all outputs; " +
 			"non-trivial = a program with >= 2 non-root packages, >= 2 unions, a sql model or a route file; distinct by SHA-256 of the source",
 		Assumes: []string{
 			"Go's per-iteration randomised map order plays the scheduler: a dependence on the order of k >= 2 map entries survives 8 runs with probability <= 2^-7",
